@@ -1,24 +1,66 @@
 import CoxeterVerif.Lemmas.CovarianceSim
 import CoxeterVerif.Model.Inside2D
 /-!
-  Helper lemmas for C09, part 7: `Circle.is_inside` / `Ellipse.is_inside` (models of C06, imported
-  unchanged) under similarities: the in-plane part is covariant (circle: every similarity of the plane;
-  ellipse, a one-sided box test: translations and scalings only — the quarter turn is the known C06 finding),
-  the out-of-plane switch `np.isclose(z, 0)` is ABSOLUTE (`1e-8`): exact range of scale covariance and a
-  witness of its failure inside the property's range.
+  Helper lemmas for C09, part 7: `Circle.is_inside` / `Ellipse.is_inside` under similarities.
+
+  The out-of-plane switch of both functions was `np.isclose(z, 0)` (absolute `1e-8`; finding of this property) and is,
+  since fixes bab419e, `np.isclose(z, 0, atol = 1e-8 * size)` (`size` = radius, resp. `max(a, b)`).  The model of these
+  functions lives in C06's `Model/Inside2D.lean`, which is being moved to the repaired expression by its owner; so that
+  this file does not depend on the moment at which that happens, BOTH expressions are written out here, statement by
+  statement as in the Python (`circleInsideAbs` / `circleInsideRel`, `ellipseInsideAbs` / `ellipseInsideRel`); the
+  repaired ones ARE C06's model as it is now (`circle_model_eq`, `ellipse_model_eq`, by `rfl`), and the covariance
+  theorems are restated for `Inside2D.Circle.isInside1` / `Inside2D.Ellipse.isInside1`:
+
+  * repaired expression: FULLY covariant — circle under every similarity keeping the `z` direction (rotation about `z`,
+    any translation, any positive scale), ellipse (the coded one-sided box test) under translations and positive
+    scalings; the quarter turn still breaks the box test (C06 finding);
+  * old expression: covariant exactly when the offset and its image are on the same side of `1e-8`; witness of the
+    failure inside the property's range (kept as a statement about the old expression: it is what the oracle's corpus
+    case would report if the absolute tolerance returned).
 -/
-open Scalar Inside2D
+open Scalar
 set_option maxRecDepth 4000
 noncomputable section
 
-/-! ### Circle / Ellipse: in-plane covariance and the absolute out-of-plane window -/
-
 namespace Inside2D
 
+/-- `np.isclose(z, 0, atol = atol)` with the default `rtol = 1e-5`: `|z − 0| ≤ atol + rtol·|0|` -/
+def iscloseAtol (z atol : ℝ) : Bool :=
+  decide (Scalar.abs (z - lit 0) ≤ atol + q 1 100000 * Scalar.abs (lit 0 : ℝ))
+
+/-- the old switch `np.isclose(z, 0)`: default `atol = 1e-8` -/
+def iscloseZeroAbs (z : ℝ) : Bool := iscloseAtol z (q 1 100000000)
+
+theorem iscloseAtol_iff (z atol : ℝ) : iscloseAtol z atol = true ↔ |z| ≤ atol := by
+  unfold iscloseAtol
+  simp only [Scalar.lit, Scalar.q, Scalar.ofNat_real, Scalar.abs_real, decide_eq_true_eq, Nat.cast_zero, sub_zero,
+    abs_zero, mul_zero, add_zero]
+
+/-- `Circle.is_inside` for one row, OLD: `norm(p − c) ≤ r ∧ isclose(z, 0)` -/
+def circleInsideAbs (r : ℝ) (c p : V3 ℝ) : Bool :=
+  let d := p - c
+  decide (V3.norm d ≤ r) && iscloseZeroAbs d.z
+
+/-- `Circle.is_inside` for one row, REPAIRED (bab419e): `norm(p − c) ≤ r ∧ isclose(z, 0, atol=1e-8 * self.radius)` -/
+def circleInsideRel (r : ℝ) (c p : V3 ℝ) : Bool :=
+  let d := p - c
+  decide (V3.norm d ≤ r) && iscloseAtol d.z (q 1 100000000 * r)
+
+/-- `Ellipse.is_inside` for one row, OLD: the one-sided box test `∧ isclose(z, 0)` -/
+def ellipseInsideAbs (a b : ℝ) (c p : V3 ℝ) : Bool :=
+  let d := p - c
+  (decide (d.x / a ≤ lit 1) && decide (d.y / b ≤ lit 1) && true) && iscloseZeroAbs d.z
+
+/-- `Ellipse.is_inside` for one row, REPAIRED: `… ∧ isclose(z, 0, atol=1e-8 * max(self.a, self.b))` -/
+def ellipseInsideRel (a b : ℝ) (c p : V3 ℝ) : Bool :=
+  let d := p - c
+  (decide (d.x / a ≤ lit 1) && decide (d.y / b ≤ lit 1) && true) && iscloseAtol d.z (q 1 100000000 * Scalar.max a b)
+
 /-- `np.isclose(z, 0)` as a statement -/
-theorem iscloseZero_window (z : ℝ) : iscloseZero z = true ↔ |z| ≤ 1 / 100000000 := by
-  unfold iscloseZero
-  simp only [Scalar.lit, Scalar.q, Scalar.ofNat_real, Scalar.abs_real, decide_eq_true_eq]
+theorem iscloseZero_window (z : ℝ) : iscloseZeroAbs z = true ↔ |z| ≤ 1 / 100000000 := by
+  unfold iscloseZeroAbs
+  rw [iscloseAtol_iff]
+  simp only [Scalar.q, Scalar.ofNat_real]
   norm_num
 
 /-- a similarity that keeps the `z` direction (rotation about `z`, any translation, any scale) -/
@@ -35,12 +77,12 @@ theorem sim_sub_z {g : Sim} (hz : KeepsZ g) (p c : V3 ℝ) : (g.pt p - g.pt c).z
   show (V3.smul g.k (g.dir (p - c))).z = _
   rw [V3.smul_z, hz]
 
-/-- **`Circle.is_inside` under an in-plane similarity**: covariant exactly when the image of the
+/-- **OLD `Circle.is_inside` under an in-plane similarity**: covariant exactly when the image of the
 out-of-plane offset is on the same side of the ABSOLUTE window `1e-8` as the offset itself. -/
 theorem circle_isInside1_sim {g : Sim} (hg : g.Proper) (hz : KeepsZ g) (r : ℝ) (c p : V3 ℝ)
     (hwin : |g.k * (p - c).z| ≤ 1 / 100000000 ↔ |(p - c).z| ≤ 1 / 100000000) :
-    Circle.isInside1 (g.k * r) (g.pt c) (g.pt p) = Circle.isInside1 r c p := by
-  unfold Circle.isInside1
+    circleInsideAbs (g.k * r) (g.pt c) (g.pt p) = circleInsideAbs r c p := by
+  unfold circleInsideAbs
   simp only []
   rw [Sim.dist hg, sim_sub_z hz, decide_eq_decide.mpr (mul_le_mul_iff_right₀ hg.kpos)]
   congr 1
@@ -49,13 +91,13 @@ theorem circle_isInside1_sim {g : Sim} (hg : g.Proper) (hz : KeepsZ g) (r : ℝ)
 
 /-- points of the circle's own plane: every in-plane similarity, every scale -/
 theorem circle_isInside1_inplane {g : Sim} (hg : g.Proper) (hz : KeepsZ g) (r : ℝ) (c p : V3 ℝ)
-    (hp : p.z = c.z) : Circle.isInside1 (g.k * r) (g.pt c) (g.pt p) = Circle.isInside1 r c p := by
+    (hp : p.z = c.z) : circleInsideAbs (g.k * r) (g.pt c) (g.pt p) = circleInsideAbs r c p := by
   apply circle_isInside1_sim hg hz
   simp only [V3.sub_z, hp, sub_self, mul_zero, abs_zero]
 
 /-- rigid motions (`k = 1`): every point of space -/
 theorem circle_isInside1_rigid {g : Sim} (hg : g.Proper) (hz : KeepsZ g) (hk : g.k = 1) (r : ℝ) (c p : V3 ℝ) :
-    Circle.isInside1 r (g.pt c) (g.pt p) = Circle.isInside1 r c p := by
+    circleInsideAbs r (g.pt c) (g.pt p) = circleInsideAbs r c p := by
   have := circle_isInside1_sim hg hz r c p (by rw [hk, one_mul])
   rw [hk, one_mul] at this; exact this
 
@@ -86,26 +128,26 @@ theorem isclose_window_scale {k dz : ℝ} (hk : 0 < k)
         _ < k * |dz| := mul_lt_mul_of_pos_left h3 hk
     exact ⟨fun h' => absurd h' (not_le.mpr h2), fun h' => absurd h' (not_le.mpr h1)⟩
 
-/-- **the absolute window breaks scale covariance inside the property's range**: the point `2·10⁻⁸`
+/-- **the OLD absolute window breaks scale covariance inside the property's range**: the point `2·10⁻⁸`
 above the unit circle's centre is outside; after scaling everything by `1/10` (radius `0.1`, offset
 `2·10⁻⁹`) it is inside. -/
 theorem circle_inside_scale_fails :
     ¬ (∀ (k : ℝ), 0 < k → ∀ (r : ℝ) (c p : V3 ℝ),
-        Circle.isInside1 (k * r) (V3.smul k c) (V3.smul k p) = Circle.isInside1 r c p) := by
+        circleInsideAbs (k * r) (V3.smul k c) (V3.smul k p) = circleInsideAbs r c p) := by
   intro h
   have := h (1 / 10) (by norm_num) 1 ⟨0, 0, 0⟩ ⟨0, 0, 2 / 100000000⟩
-  have hr : Circle.isInside1 (1:ℝ) ⟨0, 0, 0⟩ ⟨0, 0, 2 / 100000000⟩ = false := by
-    unfold Circle.isInside1
-    have hz : iscloseZero ((⟨0, 0, 2 / 100000000⟩ : V3 ℝ) - ⟨0, 0, 0⟩).z = false := by
+  have hr : circleInsideAbs (1:ℝ) ⟨0, 0, 0⟩ ⟨0, 0, 2 / 100000000⟩ = false := by
+    unfold circleInsideAbs
+    have hz : iscloseZeroAbs ((⟨0, 0, 2 / 100000000⟩ : V3 ℝ) - ⟨0, 0, 0⟩).z = false := by
       rw [Bool.eq_false_iff]; intro hc
       rw [iscloseZero_window] at hc
       simp only [V3.sub_z] at hc
       rw [abs_of_nonneg (by norm_num)] at hc
       norm_num at hc
     simp only [hz, Bool.and_false]
-  have hl : Circle.isInside1 ((1:ℝ) / 10 * 1) (V3.smul (1 / 10) ⟨0, 0, 0⟩)
+  have hl : circleInsideAbs ((1:ℝ) / 10 * 1) (V3.smul (1 / 10) ⟨0, 0, 0⟩)
       (V3.smul (1 / 10) ⟨0, 0, 2 / 100000000⟩) = true := by
-    unfold Circle.isInside1
+    unfold circleInsideAbs
     simp only [Bool.and_eq_true, decide_eq_true_eq]
     refine ⟨?_, ?_⟩
     · unfold V3.norm V3.normSq V3.dot
@@ -118,12 +160,12 @@ theorem circle_inside_scale_fails :
   rw [hl, hr] at this
   exact absurd this (by decide)
 
-/-- **`Ellipse.is_inside` (the coded one-sided box test)**: translations and positive scalings, same
+/-- **OLD `Ellipse.is_inside` (the coded one-sided box test)**: translations and positive scalings, same
 window condition -/
 theorem ellipse_isInside1_trans_scale {k : ℝ} (hk : 0 < k) (t : V3 ℝ) (a b : ℝ) (c p : V3 ℝ)
     (hwin : |k * (p - c).z| ≤ 1 / 100000000 ↔ |(p - c).z| ≤ 1 / 100000000) :
-    Ellipse.isInside1 (k * a) (k * b) (V3.smul k c + t) (V3.smul k p + t) = Ellipse.isInside1 a b c p := by
-  unfold Ellipse.isInside1
+    ellipseInsideAbs (k * a) (k * b) (V3.smul k c + t) (V3.smul k p + t) = ellipseInsideAbs a b c p := by
+  unfold ellipseInsideAbs
   have e : ∀ x y u : ℝ, (k * x + u - (k * y + u)) = k * (x - y) := by intros; ring
   simp only [V3.sub_x, V3.sub_y, V3.sub_z, V3.add_x, V3.add_y, V3.add_z, V3.smul_x, V3.smul_y, V3.smul_z, e,
     mul_div_mul_left _ _ hk.ne']
@@ -135,13 +177,84 @@ theorem ellipse_isInside1_trans_scale {k : ℝ} (hk : 0 < k) (t : V3 ℝ) (a b :
 does NOT preserve the coded test (consequence of the C06 finding) -/
 theorem ellipse_inside_quarter_fails :
     ¬ (∀ (a b : ℝ) (c p : V3 ℝ),
-        Ellipse.isInside1 b a ⟨-c.y, c.x, c.z⟩ ⟨-p.y, p.x, p.z⟩ = Ellipse.isInside1 a b c p) := by
+        ellipseInsideAbs b a ⟨-c.y, c.x, c.z⟩ ⟨-p.y, p.x, p.z⟩ = ellipseInsideAbs a b c p) := by
   intro h
   have := h 1 2 ⟨0, 0, 0⟩ ⟨-5, -5, 0⟩
   revert this
-  unfold Ellipse.isInside1 iscloseZero
+  unfold ellipseInsideAbs iscloseZeroAbs iscloseAtol
   simp only [V3.sub_x, V3.sub_y, V3.sub_z, Scalar.lit, Scalar.q, Scalar.ofNat_real, Scalar.abs_real]
   norm_num
+
+/-! ### the repaired expressions: fully covariant -/
+
+/-- **`Circle.is_inside` (as repaired, `atol = 1e-8 · radius`) is covariant under EVERY similarity that keeps the
+`z` direction** — rotation about `z`, any translation, any positive scale, every point of space. -/
+theorem circleInsideRel_sim {g : Sim} (hg : g.Proper) (hz : KeepsZ g) (r : ℝ) (c p : V3 ℝ) :
+    circleInsideRel (g.k * r) (g.pt c) (g.pt p) = circleInsideRel r c p := by
+  unfold circleInsideRel
+  simp only []
+  rw [Sim.dist hg, sim_sub_z hz, decide_eq_decide.mpr (mul_le_mul_iff_right₀ hg.kpos)]
+  congr 1
+  rw [Bool.eq_iff_iff, iscloseAtol_iff, iscloseAtol_iff, abs_mul, abs_of_pos hg.kpos]
+  have : q 1 100000000 * (g.k * r) = g.k * (q 1 100000000 * r) := by ring
+  rw [this]
+  exact mul_le_mul_iff_right₀ hg.kpos
+
+/-- **`Ellipse.is_inside` (as repaired, `atol = 1e-8 · max(a, b)`; still the coded box test) is covariant under
+every translation and positive scaling**, every point of space -/
+theorem ellipseInsideRel_trans_scale {k : ℝ} (hk : 0 < k) (t : V3 ℝ) (a b : ℝ) (c p : V3 ℝ) :
+    ellipseInsideRel (k * a) (k * b) (V3.smul k c + t) (V3.smul k p + t) = ellipseInsideRel a b c p := by
+  unfold ellipseInsideRel
+  have e : ∀ x y u : ℝ, (k * x + u - (k * y + u)) = k * (x - y) := by intros; ring
+  simp only [V3.sub_x, V3.sub_y, V3.sub_z, V3.add_x, V3.add_y, V3.add_z, V3.smul_x, V3.smul_y, V3.smul_z, e,
+    mul_div_mul_left _ _ hk.ne', smax_mul hk]
+  congr 1
+  rw [Bool.eq_iff_iff, iscloseAtol_iff, iscloseAtol_iff, abs_mul, abs_of_pos hk]
+  have : q 1 100000000 * (k * Scalar.max a b) = k * (q 1 100000000 * Scalar.max a b) := by ring
+  rw [this]
+  exact mul_le_mul_iff_right₀ hk
+
+/-- the quarter turn mapping the axis-aligned ellipse `(a, b)` to `(b, a)` still does NOT preserve the coded box
+test (consequence of the C06 finding; the out-of-plane switch plays no role: the witness is in the plane) -/
+theorem ellipseInsideRel_quarter_fails :
+    ¬ (∀ (a b : ℝ) (c p : V3 ℝ),
+        ellipseInsideRel b a ⟨-c.y, c.x, c.z⟩ ⟨-p.y, p.x, p.z⟩ = ellipseInsideRel a b c p) := by
+  intro h
+  have := h 1 2 ⟨0, 0, 0⟩ ⟨-5, -5, 0⟩
+  revert this
+  unfold ellipseInsideRel iscloseAtol
+  simp only [V3.sub_x, V3.sub_y, V3.sub_z, Scalar.lit, Scalar.q, Scalar.ofNat_real, Scalar.abs_real, Scalar.max]
+  norm_num
+
+/-- the witness that breaks the OLD expression is harmless for the repaired one: at every scale the point
+`2·10⁻⁸` radii above the centre is outside -/
+example (k : ℝ) (hk : 0 < k) :
+    circleInsideRel (k * 1) (V3.smul k ⟨0, 0, 0⟩) (V3.smul k ⟨0, 0, 2 / 100000000⟩) = circleInsideRel 1 ⟨0, 0, 0⟩ ⟨0, 0, 2 / 100000000⟩ := by
+  have hz : KeepsZ (Sim.scaling k) := by
+    intro v; simp [Sim.dir, Sim.scaling, Sim.mulVec_id]
+  have := circleInsideRel_sim (Sim.scaling_proper hk) hz 1 ⟨0, 0, 0⟩ ⟨0, 0, 2 / 100000000⟩
+  rw [Sim.scaling_pt, Sim.scaling_pt] at this
+  exact this
+
+/-! ### the tie to C06's model (as moved to bab419e) -/
+
+theorem circle_model_eq (r : ℝ) (c p : V3 ℝ) : Circle.isInside1 r c p = circleInsideRel r c p := rfl
+theorem ellipse_model_eq (a b : ℝ) (c p : V3 ℝ) : Ellipse.isInside1 a b c p = ellipseInsideRel a b c p := rfl
+
+/-- **`Circle.is_inside` (C06's model) is covariant under every similarity keeping the `z` direction** -/
+theorem circle_isInside1_sim_full {g : Sim} (hg : g.Proper) (hz : KeepsZ g) (r : ℝ) (c p : V3 ℝ) :
+    Circle.isInside1 (g.k * r) (g.pt c) (g.pt p) = Circle.isInside1 r c p := by
+  rw [circle_model_eq, circle_model_eq]; exact circleInsideRel_sim hg hz r c p
+
+/-- **`Ellipse.is_inside` (C06's model) is covariant under every translation and positive scaling** -/
+theorem ellipse_isInside1_trans_scale_full {k : ℝ} (hk : 0 < k) (t : V3 ℝ) (a b : ℝ) (c p : V3 ℝ) :
+    Ellipse.isInside1 (k * a) (k * b) (V3.smul k c + t) (V3.smul k p + t) = Ellipse.isInside1 a b c p := by
+  rw [ellipse_model_eq, ellipse_model_eq]; exact ellipseInsideRel_trans_scale hk t a b c p
+
+theorem ellipse_isInside1_quarter_fails :
+    ¬ (∀ (a b : ℝ) (c p : V3 ℝ),
+        Ellipse.isInside1 b a ⟨-c.y, c.x, c.z⟩ ⟨-p.y, p.x, p.z⟩ = Ellipse.isInside1 a b c p) := by
+  simp only [ellipse_model_eq]; exact ellipseInsideRel_quarter_fails
 
 end Inside2D
 
